@@ -25,6 +25,7 @@ partial def pVal : P AnyValue := do
   | "d" => do pure (.dbl (← pNat))
   | "y" => do pure (.bytes (← pHex))
   | "u" => pure .unset
+  | "N" => pure .nilp
   | "a" => do let n ← pNat; pure (.arr (← many pVal n))
   | "m" => do
     let n ← pNat
@@ -121,6 +122,7 @@ partial def rVal : AnyValue → List String
   | .dbl b => ["d", toString b]
   | .bytes b => ["y", hexOut b]
   | .unset => ["u"]
+  | .nilp => ["N"]
   | .arr vs => ["a", toString vs.length] ++ vs.flatMap rVal
   | .kvl kvs => ["m", toString kvs.length] ++ kvs.flatMap (fun kv => hexOut kv.1 :: rVal kv.2)
 
